@@ -25,14 +25,41 @@ _OBJ_SHAPE = {}
 # configurations
 
 
+# numeric forms in which a caller can legitimately hand a hyper-parameter to torch.optim /
+# torch.optim.lr_scheduler (round 4): Python int / float and NumPy scalars.  An integer form is only
+# applied to a value that IS an integer (a learning rate of 1, end_factor = 1, max_lr = 2, ...); a
+# fractional value under an integer form stays a Python float.
+NUM_FORMS = ("float", "int", "np.int64", "np.int32", "np.float32", "np.float64")
+INT_FORMS = ("int", "np.int64", "np.int32")
+
+
+def num(form, v):
+    """the number `v` in the numeric form `form`"""
+    if form in (None, "float"):
+        return float(v)
+    if form in INT_FORMS:
+        if float(v) != int(v):
+            return float(v)
+        return int(v) if form == "int" else getattr(np, form[3:])(int(v))
+    if form in ("np.float32", "np.float64"):
+        return getattr(np, form[3:])(v)
+    raise ValueError(form)
+
+
+def form_of(cfg, key):
+    f = cfg.get("num_form")
+    return "float" if not f else f.get(key, "float")
+
+
 def opt_params(cfg):
     """optimizer_params dict for reconstruct() (fresh dicts: the setter mutates its argument)"""
     t = cfg["opt"]
     out = {}
     for key in cfg["optimise"]:
-        d = {"type": "sgd" if t.startswith("sgd") else t, "lr": float(cfg["lr"][key])}
+        f = form_of(cfg, key)
+        d = {"type": "sgd" if t.startswith("sgd") else t, "lr": num(f, cfg["lr"][key])}
         if t == "sgd_momentum":
-            d["momentum"] = 0.9
+            d["momentum"] = num(f, 0.9)
         out[key] = d
     return out
 
@@ -41,18 +68,19 @@ def sched_params(cfg):
     s = cfg["sched"]
     out = {}
     for key in cfg["optimise"]:
+        f = form_of(cfg, key)
         if s == "none":
             continue
         if s == "exp":
-            out[key] = {"type": "exp", "gamma": 0.8 if key == "probe" else 0.9}
+            out[key] = {"type": "exp", "gamma": num(f, 0.8 if key == "probe" else 0.9)}
         elif s == "linear":
-            out[key] = {"type": "linear", "start_factor": 0.25, "end_factor": 1.0, "total_iters": 3}
+            out[key] = {"type": "linear", "start_factor": num(f, 0.25), "end_factor": num(f, 1.0), "total_iters": 3}
         elif s == "plateau":
-            out[key] = {"type": "plateau", "factor": 0.5, "patience": 0, "threshold": 0.5, "cooldown": 1,
-                        "min_lr": 1e-7}
+            out[key] = {"type": "plateau", "factor": num(f, 0.5), "patience": 0, "threshold": num(f, 0.5),
+                        "cooldown": 1, "min_lr": num(f, 1e-7)}
         elif s == "cyclic":
             out[key] = {"type": "cyclic", "step_size_up": 2, "step_size_down": 2,
-                        "base_lr": float(cfg["lr"][key]) / 2, "max_lr": float(cfg["lr"][key]) * 2}
+                        "base_lr": num(f, float(cfg["lr"][key]) / 2), "max_lr": num(f, float(cfg["lr"][key]) * 2)}
         else:
             raise ValueError(s)
     return out
@@ -256,19 +284,37 @@ def numeric_obs(pt):
     """the observables of the property statement"""
     cons = pt.constraints
     return {
+        # what the object REPORTS: the public accessors (iter_losses / iter_lrs / val_iter_losses are
+        # arrays built from the stored histories), as Python floats - numeric value, whatever the dtype
         "num_iters": int(pt.num_iters),
-        "losses": [float(x) for x in pt._iter_losses],
-        "lrs": {k: [float(x) for x in v] for k, v in pt._iter_lrs.items()},
+        "losses": _floats(pt.iter_losses),
+        "lrs": {str(k): _floats(v) for k, v in pt.iter_lrs.items()},
         "constraints": {k: {kk: _canon(vv) for kk, vv in sorted(v.items())} for k, v in sorted(cons.items())},
         "obj": np.array(pt.obj),
         "probe": np.array(pt.probe),
         # reconstruction history kept next to the losses (anchor: _iter_losses, _iter_lrs, _snapshots)
-        "val_losses": [float(x) for x in pt._iter_val_losses],
+        "val_losses": _floats(pt.val_iter_losses),
         "snapshots": [(int(sn["iteration"]), np.array(sn["obj"]), np.array(sn["probe"])) for sn in pt.snapshots],
         # learned dataset parameters (anchor: _dataset_metadata)
         "positions": pt.dset.scan_positions_px.detach().cpu().numpy().copy(),
         "descan": pt.dset.descan_shifts.detach().cpu().numpy().copy(),
     }
+
+
+def int_then_frac(pt):
+    """coverage statistic: some stored learning-rate history starts with an integer-typed entry and
+    contains a fractional rate later (an integer rate that a scheduler has made fractional)"""
+    for v in pt._iter_lrs.values():
+        v = list(v)
+        if len(v) > 1 and isinstance(v[0], (int, np.integer)) and not isinstance(v[0], bool) and any(
+                float(x) != int(x) for x in v[1:]):
+            return True
+    return False
+
+
+def _floats(v):
+    """a history as a list of Python floats (1-D; numeric value of every entry, dtype-insensitive)"""
+    return [float(x) for x in np.asarray(v).ravel().tolist()] if len(v) else []
 
 
 def _canon(v):
@@ -397,24 +443,45 @@ def rel_l2(a, b):
     return float(d / max(1e-30, np.linalg.norm(b.ravel())))
 
 
-def compare_numeric(x, y, tol, arr_l2=None, arr_max=None):
+def _hist_diff(a, b, exact, tol):
+    """index of the first entry at which two histories of equal length differ, or None.  exact: the
+    numeric values are equal; else: every ENTRY agrees to relative `tol` (not the max-norm of the whole
+    history: a decayed learning rate is orders of magnitude below the first one)"""
+    for i, (u, v) in enumerate(zip(a, b)):
+        if u == v:
+            continue
+        if exact or not (abs(u - v) <= tol * max(abs(u), abs(v))):
+            return i
+    return None
+
+
+def compare_numeric(x, y, tol, arr_l2=None, arr_max=None, exact_hist=False):
     """first difference between two numeric_obs dicts, or None.  Scalars and histories: relative
     max-norm `tol`.  Object / probe arrays: relative Frobenius norm `arr_l2` and relative max-norm
     `arr_max` (both default to `tol`): Adam's gradient normalisation amplifies float32 rounding
-    noise at single, barely illuminated pixels, which a pure max-norm would report."""
+    noise at single, barely illuminated pixels, which a pure max-norm would report.
+
+    Round 4: the learning-rate histories are compared ENTRY BY ENTRY and exactly in value (a learning
+    rate is a function of the hyper-parameters, the scheduler state and - plateau - of comparisons of
+    losses, never of float32 rounding); with `exact_hist` (reported state of a reloaded / cloned / moved
+    object vs the state that went in) the loss and validation-loss histories are compared exactly too."""
     arr_l2 = tol if arr_l2 is None else arr_l2
     arr_max = tol if arr_max is None else arr_max
     if x["num_iters"] != y["num_iters"]:
         return "iteration count %d vs %d" % (x["num_iters"], y["num_iters"])
     if len(x["losses"]) != len(y["losses"]):
         return "loss history length %d vs %d" % (len(x["losses"]), len(y["losses"]))
-    if x["losses"] and rel(x["losses"], y["losses"]) > tol:
+    if x["losses"] and (rel(x["losses"], y["losses"]) > tol or
+                        (exact_hist and _hist_diff(x["losses"], y["losses"], True, 0) is not None)):
         return "loss history %s vs %s" % (x["losses"], y["losses"])
     if sorted(x["lrs"]) != sorted(y["lrs"]):
         return "lr history keys %s vs %s" % (sorted(x["lrs"]), sorted(y["lrs"]))
-    for k in x["lrs"]:
-        if len(x["lrs"][k]) != len(y["lrs"][k]) or (x["lrs"][k] and rel(x["lrs"][k], y["lrs"][k]) > tol):
-            return "lr history of %s: %s vs %s" % (k, x["lrs"][k], y["lrs"][k])
+    for k in sorted(x["lrs"]):
+        if len(x["lrs"][k]) != len(y["lrs"][k]):
+            return "lr history of %s: length %d vs %d" % (k, len(x["lrs"][k]), len(y["lrs"][k]))
+        i = _hist_diff(x["lrs"][k], y["lrs"][k], True, 0)
+        if i is not None:
+            return "lr history of %s differs at iteration %d: %s vs %s" % (k, i, x["lrs"][k], y["lrs"][k])
     if x["constraints"] != y["constraints"]:
         return "constraints %s vs %s" % (x["constraints"], y["constraints"])
     for nm in ("obj", "probe"):
@@ -425,15 +492,16 @@ def compare_numeric(x, y, tol, arr_l2=None, arr_max=None):
         if not (r <= arr_max and r2 <= arr_l2):
             return "%s differs by rel %.3g max-norm / %.3g Frobenius (tolerances %.1g / %.1g)" % (
                 nm, r, r2, arr_max, arr_l2)
-    return compare_extra(x, y, tol, arr_l2, arr_max)
+    return compare_extra(x, y, tol, arr_l2, arr_max, exact_hist)
 
 
-def compare_extra(x, y, tol, arr_l2, arr_max):
+def compare_extra(x, y, tol, arr_l2, arr_max, exact_hist=False):
     """the histories / learned parameters added in round 3 (absent in old records: skipped)"""
     if "val_losses" in x and "val_losses" in y:
         if len(x["val_losses"]) != len(y["val_losses"]):
             return "validation loss history length %d vs %d" % (len(x["val_losses"]), len(y["val_losses"]))
-        if x["val_losses"] and rel(x["val_losses"], y["val_losses"]) > tol:
+        if x["val_losses"] and (rel(x["val_losses"], y["val_losses"]) > tol or (
+                exact_hist and _hist_diff(x["val_losses"], y["val_losses"], True, 0) is not None)):
             return "validation loss history %s vs %s" % (x["val_losses"], y["val_losses"])
     if "snapshots" in x and "snapshots" in y:
         if [a[0] for a in x["snapshots"]] != [a[0] for a in y["snapshots"]]:
